@@ -31,13 +31,13 @@ ASpaceObject::~ASpaceObject() {}
 
 static double g_x1[VF_ND], g_x2[VF_ND], g_t[VF_ND];
 
-static void draw()
+static void draw(int m)
 {
   for (int d = 0; d < VF_ND; d++)
   {
-    g_x1[d] = vf_grid_double(GRID);
-    g_x2[d] = vf_grid_double(GRID);
-    g_t[d]  = vf_grid_double(GRID);
+    g_x1[d] = vf_grid_double(m);
+    g_x2[d] = vf_grid_double(m);
+    g_t[d]  = vf_grid_double(m);
   }
 }
 
@@ -57,7 +57,7 @@ static void build(SpaceTarget& T1, SpaceTarget& T2)
 
 extern "C" void k_increment()
 {
-  draw();
+  draw(GRID);
   SpaceRN sp(VF_ND);
   SpaceTarget T1(&sp, false, false, false);
   SpaceTarget T2(&sp, false, false, false);
@@ -83,11 +83,15 @@ extern "C" void k_increment()
   vf_witness();
 }
 
+// magnitudes of this entry: |x|, |t|, |radius| <= 2^15, so that |x1 - x2| <= 2^17 and every quantity of
+// the library ((dx/c)^2 = multiple of 2^-6 below 2^34, their sum) and of the reference (below 2^52) is a
+// dyadic number of fewer than 53 significant bits: exact in IEEE double
+#define GRID2 (1 << 15)
 extern "C" void k_check_distance()
 {
-  draw();
-  // neighbourhood radius: undefined is not a documented input here; any real (negative: nothing accepted)
-  double radius = vf_grid_double(GRID);
+  draw(GRID2);
+  // neighbourhood radius: any integer (negative: nothing accepted)
+  double radius = vf_grid_double(GRID2);
   // anisotropy coefficients (ratio of the ranges): powers of two, so that the library's division is exact
   double c[VF_ND];
   for (int d = 0; d < VF_ND; d++)
